@@ -74,6 +74,8 @@ func (e *encoder) walk(v any, path string, depth int) any {
 		return x
 	case float64:
 		if math.IsNaN(x) || math.IsInf(x, 0) {
+			// not a JSON number
+			e.leak(path, "non-finite number")
 			return map[string]any{"$float": fmt.Sprint(x)}
 		}
 		return x
